@@ -45,5 +45,10 @@ class D:
 
 def decoded(build, max_size=64, min_size=0):
     """Strategy: bytes -> build(D(bytes))."""
-    return st.binary(min_size=min_size, max_size=max_size).map(
-        lambda b: build(D(b)))
+    # Hypothesis prefers short byte strings (mean near 2 x min_size), and an
+    # exhausted decoder answers 0 - the simplest choice - so that most cases
+    # would be starved half way through their structure.  Every second case
+    # therefore gets the full budget.
+    sizes = st.one_of(st.binary(min_size=min_size, max_size=max_size),
+                      st.binary(min_size=max_size, max_size=max_size))
+    return sizes.map(lambda b: build(D(b)))
